@@ -107,14 +107,23 @@ DimStats check_dimension(vf::Ctx& c, hep::vegas_pdf<T> const& oldp, hep::vegas_p
     }
     // classes judged by the invariants only
     LD const tiny = std::numeric_limits<T>::min();
-    if (norm < tiny * std::ldexp(1.0L, std::numeric_limits<T>::digits)) { st.skipped_model = true; return st; } // denormal scale
+    // denormal-scale data: the smoothed values carry an absolute error of half a denorm_min each, i.e. only a few bits;
+    // the model is then compared coarsely (5 % of the total importance) and only if every smoothed value still has at
+    // least ~6 bits - enough to tell a refined grid from one that was not refined at all
+    bool coarse = false;
+    if (norm < tiny * std::ldexp(1.0L, std::numeric_limits<T>::digits))
+    {
+        LD const dmin = std::numeric_limits<T>::denorm_min();
+        for (auto v : s) { if (v != 0 && v < 64 * dmin) { st.skipped_model = true; return st; } }
+        coarse = true;
+    }
     std::vector<LD> imp(B, 0.0L);
     LD sum = 0, maximp = 0;
     for (std::size_t b = 0; b != B; ++b)
     {
         if (s[b] == 0) { continue; }
         LD const r = s[b] / norm;
-        if (r < tiny * 4 || s[b] < tiny * 4) { st.skipped_model = true; return st; } // ratio or smoothed value underflows in T
+        if (!coarse && (r < tiny * 4 || s[b] < tiny * 4)) { st.skipped_model = true; return st; } // ratio or smoothed value underflows in T
         imp[b] = std::pow((r - 1) / std::log(r), static_cast<LD>(alpha));
         sum += imp[b];
         maximp = std::max(maximp, imp[b]);
@@ -151,9 +160,9 @@ DimStats check_dimension(vf::Ctx& c, hep::vegas_pdf<T> const& oldp, hep::vegas_p
         }
         if (bad_class) { st.skipped_model = true; continue; }
         LD const cond = maxdens * scale;
-        LD const tol = 8 * eps * (B * sum + cond);
+        LD const tol = coarse ? 0.05L * sum + 8 * eps * cond : 8 * eps * (B * sum + cond);
         LD const err = std::fabs(F - k * avg);
-        c.note_margin(tol, err);
+        if (!coarse) { c.note_margin(tol, err); }
         st.judged = true;
         VF_CHECK(c, err <= tol, "C07:share", "dimension " << i << ": the first " << k << " refined bins hold importance "
             << vf::show<LD>(F) << " instead of " << k << " x " << vf::show<LD>(avg) << " (new boundary " << vf::show(newp.bin_left(i, k))
